@@ -53,6 +53,8 @@ type Prog struct {
 
 	nameCache map[*ssa.Function]string
 	cg        *callGraph
+	viaMemo   map[*ssa.Function]ProvSet
+	viaBusy   map[*ssa.Function]bool
 }
 
 // fdotest and its sub-packages are the repository's own test harness shipped
